@@ -120,27 +120,36 @@ theorem NamesOK.child {kw : List String} {st : St} (hn : NamesOK kw st) (q : Pat
     (h : n ∈ st.childNames q) : Names.isValidName kw n = true :=
   hn.ids (q ++ [n]) ((mem_childNames st q n).mp h) n (by simp)
 
-/-- **every visible name is a valid name or one of the three special names** (states with the invariant) -/
+/-- **every visible name is a valid name, one of the three special names, or a model-level reference**
+(states with the invariant).  The third case cannot be dropped: `model.name = value` tests no name
+(`ModelImpl.set_attr`), and a model-level reference is visible in the namespace of every space. -/
 theorem visible_valid {kw : List String} {st : St} (h : InvN kw st) (q : Path) (n : String)
-    (hv : (chainFind (st.codeChain q) n).isSome = true) : Names.isValidName kw n = true ∨ n ∈ sysNames := by
+    (hv : (chainFind (st.codeChain q) n).isSome = true) :
+    Names.isValidName kw n = true ∨ n ∈ sysNames ∨ n ∈ st.globals := by
   rcases (chain_visible_iff st q n).mp hv with hc | hr | hs | hg | hch
   · exact Or.inl (h.names.mems h.toInv .cells q n hc)
   · exact Or.inl (h.names.mems h.toInv .refs q n hr)
-  · exact Or.inr hs
-  · exact Or.inl (h.names.globals n hg)
+  · exact Or.inr (Or.inl hs)
+  · exact Or.inr (Or.inr hg)
   · exact Or.inl (h.names.child q n hch)
 
-/-- the four space-level maps are pairwise disjoint in a state with the invariant -/
+/-- every model-level reference is visible in the namespace of every space, whatever its name -/
+theorem global_visible (st : St) (q : Path) (n : String) (hg : n ∈ st.globals) :
+    (chainFind (st.codeChain q) n).isSome = true :=
+  (chain_visible_iff st q n).mpr (Or.inr (Or.inr (Or.inr (Or.inl hg))))
+
+/-- the four space-level maps are pairwise disjoint in a state with the invariant.  (A model-level
+reference MAY bear a special name - `model._self = 1` is accepted; the special name wins in every space,
+`chain_other_matches`.) -/
 theorem space_level_disjoint {kw : List String} {st : St} (h : InvN kw st) (q : Path) (n : String) :
     ¬ ((st.mem .cells q n).isSome = true ∧ (st.mem .refs q n).isSome = true) ∧
     ¬ ((st.mem .cells q n).isSome = true ∧ n ∈ sysNames) ∧
     ¬ ((st.mem .refs q n).isSome = true ∧ n ∈ sysNames) ∧
     ¬ ((st.mem .cells q n).isSome = true ∧ n ∈ st.childNames q) ∧
     ¬ ((st.mem .refs q n).isSome = true ∧ n ∈ st.childNames q) ∧
-    ¬ (n ∈ sysNames ∧ n ∈ st.childNames q) ∧
-    ¬ (n ∈ sysNames ∧ n ∈ st.globals) := by
+    ¬ (n ∈ sysNames ∧ n ∈ st.childNames q) := by
   have hd := h.disj
-  refine ⟨?_, ?_, ?_, ?_, ?_, ?_, ?_⟩
+  refine ⟨?_, ?_, ?_, ?_, ?_, ?_⟩
   · rintro ⟨h1, h2⟩; rw [hd.cr q n h1] at h2; cases h2
   · rintro ⟨h1, h2⟩
     have := h.names.mems h.toInv .cells q n h1
@@ -152,9 +161,6 @@ theorem space_level_disjoint {kw : List String} {st : St} (h : InvN kw st) (q : 
   · rintro ⟨h1, h2⟩; rw [(hd.child q n h2).2] at h1; cases h1
   · rintro ⟨h1, h2⟩
     have := h.names.child q n h2
-    rw [sysNames_invalid kw n h1] at this; cases this
-  · rintro ⟨h1, h2⟩
-    have := h.names.globals n h2
     rw [sysNames_invalid kw n h1] at this; cases this
 
 /-- which map of the chain has the name -/
@@ -178,14 +184,14 @@ theorem codeChain_has (st : St) (q : Path) (n : String) (e : String × NMap Deno
 
 /-- **the only double meanings** a name can have in a state with the invariant: besides the map the
 lookup stops at, the name is found only (a) in the model-level references, when the lookup stopped at a
-cells or an own reference of the space (the space-level name wins), or (b) in the child spaces, when the
-lookup stopped at a model-level reference (the child space loses) -/
+cells, an own reference or a special name of the space (the space-level name wins), or (b) in the child
+spaces, when the lookup stopped at a model-level reference (the child space loses) -/
 theorem chain_other_matches {kw : List String} {st : St} (h : InvN kw st) (q : Path) (n : String)
     (mapName : String) (d : Denot) (hf : chainFind (st.codeChain q) n = some (mapName, d)) :
     ∀ e ∈ st.codeChain q, e.1 ≠ mapName → (e.2.find n).isSome = true →
-      (e.1 = "global_refs" ∧ (mapName = "cells" ∨ mapName = "own_refs")) ∨
+      (e.1 = "global_refs" ∧ (mapName = "cells" ∨ mapName = "own_refs" ∨ mapName = "sys_refs")) ∨
       (e.1 = "spaces" ∧ mapName = "global_refs") := by
-  obtain ⟨d1, d2, d3, d4, d5, d6, d7⟩ := space_level_disjoint h q n
+  obtain ⟨d1, d2, d3, d4, d5, d6⟩ := space_level_disjoint h q n
   intro e he hne hsome
   rw [codeChain_has st q n e he] at hsome
   rw [chain_resolution] at hf
@@ -213,18 +219,18 @@ theorem chain_other_matches {kw : List String} {st : St} (h : InvN kw st) (q : P
       · cases h2
       · exact absurd h1 hne
       · exact absurd h2 d3
-      · exact Or.inl ⟨h1, Or.inr rfl⟩
+      · exact Or.inl ⟨h1, Or.inr (Or.inl rfl)⟩
       · exact absurd h2 d5
     | none =>
       rw [hr] at hf hsome
       by_cases hs : n ∈ sysNames
       · simp only [hs, if_true, Option.some.injEq, Prod.mk.injEq] at hf
         obtain ⟨rfl, _⟩ := hf
-        rcases hsome with ⟨_, h2⟩ | ⟨_, h2⟩ | ⟨h1, _⟩ | ⟨_, h2⟩ | ⟨_, h2⟩
+        rcases hsome with ⟨_, h2⟩ | ⟨_, h2⟩ | ⟨h1, _⟩ | ⟨h1, _⟩ | ⟨_, h2⟩
         · cases h2
         · cases h2
         · exact absurd h1 hne
-        · exact absurd ⟨hs, h2⟩ d7
+        · exact Or.inl ⟨h1, Or.inr (Or.inr rfl)⟩
         · exact absurd ⟨hs, h2⟩ d6
       · by_cases hg : n ∈ st.globals
         · simp only [hs, hg, if_true, if_false, Option.some.injEq, Prod.mk.injEq] at hf
